@@ -350,3 +350,31 @@ func BlockingChannel() Macro {
 		Write: func(_ *Store, cur tlx.Val, v tlx.Val, _ string) (tlx.Val, bool) { return Append(cur, v), true },
 	}
 }
+
+// TCPChannel: bounded FIFO (dqueue, load balancer): read pops the head, write appends while Len < bound.
+func TCPChannel(bound int) Macro {
+	return Macro{
+		Read: func(_ *Store, cur tlx.Val, _ string) (tlx.Val, tlx.Val, bool) {
+			if len(cur.E) == 0 {
+				return cur, tlx.Val{}, false
+			}
+			return Tail(cur), cur.E[0], true
+		},
+		Write: func(_ *Store, cur tlx.Val, v tlx.Val, _ string) (tlx.Val, bool) {
+			if len(cur.E) >= bound {
+				return cur, false
+			}
+			return Append(cur, v), true
+		},
+	}
+}
+
+// Counter: every read yields the current number and increments it (a stream of distinct items).
+func Counter() Macro {
+	return Macro{Read: func(_ *Store, cur tlx.Val, _ string) (tlx.Val, tlx.Val, bool) { return tlx.Int(cur.I + 1), cur, true }}
+}
+
+// Constant always yields v.
+func Constant(v tlx.Val) Macro {
+	return Macro{Read: func(_ *Store, cur tlx.Val, _ string) (tlx.Val, tlx.Val, bool) { return cur, v, true }}
+}
